@@ -10,7 +10,8 @@ LEVEL = "exploration"
 RULE = (
     "case = (texel size, input assembly, Pretext map). Input assemblies: 1-6 scaffolds x 1-10 contigs, both strands, "
     "contig lengths from 1 bp to 40 texels, gaps of 1..2*texel+1, unique contig names or FASTA-shaped (contig name = "
-    "scaffold name), arbitrary names incl. haplotype-looking ones. Maps: PretextView model (texel grid cuts, pieces >= 2 "
+    "scaffold name), recurated (few names, mixed strands), a third of the cases with scaffolds that start / end with a gap row "
+    "(FASTA with terminal N runs), arbitrary names incl. haplotype-looking ones. Maps: PretextView model (texel grid cuts, pieces >= 2 "
     "texels, permuted / re-oriented / regrouped, painted or not) - 40% clean, 60% perturbed by 1-4 of {drop, duplicate, "
     "add reverse copy, shift ends +-3 texels off-grid, replace by arbitrary interval, push beyond scaffold end, sprinkle "
     "known tags, append arbitrary bait}. Oracle: if the run raises it is an allowed error; otherwise the multiset of all "
@@ -73,6 +74,8 @@ def check_case(case, rec, runner):
         return
     classes.add("completed")
     inter = classify(case, outputs)
+    if any(rows[0][0] == "G" or rows[-1][0] == "G" for _n, rows in case["input"]):
+        classes.add("input_with_terminal_gap")
     classes |= inter
     rec.note(case, bool(inter), classes)
     msg = ref.partition_violation(case["input"], outputs)
@@ -132,7 +135,7 @@ def body_cli(case, rec):
 def cases(draw, cli=False):
     t = draw(gen.texel())
     strands = "mixed"
-    inp = draw(gen.input_assembly(t, arbitrary_names=not cli, strands=strands,
+    inp = draw(gen.input_assembly(t, arbitrary_names=not cli, strands=strands, terminal_gaps=True,
                                   max_scaffolds=4 if cli else 6, max_contigs=6 if cli else 10))
     m = draw(gen.model_map(inp, t))
     case = {"t": gen.texel_str(t), "input": inp, "map": m, "prefix": "SUPER_", "kind": "model"}
